@@ -72,6 +72,22 @@ class Fixed:
         return iter(())
 
 
+class Sel:  # integer selector with an explicit documented set
+    def __init__(self, good, bad):
+        self.good, self.bad = tuple(good), tuple(bad)
+
+    def valid(self, rng):
+        return rng.choice(self.good)
+
+    def ok(self, v):
+        return v in self.good
+
+    def variants(self, rng):
+        return iter(self.good + self.bad)
+
+
+PADDING = Sel((1, 2, 3), (0, -1, -2, -3, -4, 4, 5, 16, 255, 256, 2 ** 31, -2 ** 31))
+VARIANT = Sel(tuple(range(0, 32)), (-1, -2, -31, -32, 32, 33, 64, 255, 256))
 PIN = T(4, 12)
 PAN13 = T(13, 10 ** 6)
 HEXPAD = T(1, 1, "0123456789abcdefABCDEF")
@@ -91,15 +107,16 @@ FUNCS = {
     "pinblock.decipher_pinblock_iso_4": ([B((16, 24, 32)), B((16, 32, 48)), T(1, 19)], False, True),
     "cvv.generate_cvv": ([B((16,)), T(0, 19), T(4, 4), T(3, 3)], False, False),
     "pin.generate_visa_pvv": ([B((8, 16, 24)), T(1, 1), T(4, 4), T(12, 10 ** 6)], False, False),
-    "mac.generate_cbc_mac": ([B((8, 16, 24)), B(tuple(range(0, 41))), Fixed(1, 2, 3), Fixed(None, 4, 8), Fixed(None, A.DES)], False, False),
-    "mac.generate_retail_mac": ([B((8, 16, 24)), B((8, 16, 24)), B(tuple(range(0, 41))), Fixed(1, 2, 3), Fixed(None, 4, 8)], False, False),
-    "des.apply_key_variant": ([B((8, 16, 24)), Fixed(0, 1, 31)], False, False),
+    "mac.generate_cbc_mac": ([B((8, 16, 24)), B(tuple(range(0, 41))), PADDING, Fixed(None, 4, 8), Fixed(None, A.DES)], False, False),
+    "mac.generate_cbc_mac#aes": ([B((16, 24, 32)), B(tuple(range(0, 41))), PADDING, Fixed(None, 4, 16), Fixed(A.AES)], False, False),
+    "mac.generate_retail_mac": ([B((8, 16, 24)), B((8, 16, 24)), B(tuple(range(0, 41))), PADDING, Fixed(None, 4, 8)], False, False),
+    "des.apply_key_variant": ([B((8, 16, 24)), VARIANT], False, False),
     "des.generate_kcv": ([B((8, 16, 24)), Fixed(2, 3)], False, False),
 }
 
 
 def verdict_case(c, fn, params, args, entropy, decoder):
-    r = c.call(fn, *args, with_entropy=entropy)
+    r = c.call(fn.split("#")[0], *args, with_entropy=entropy)
     dom = all(p.ok(a) for p, a in zip(params, args))
     c.desc["in_domain"] = dom
     if not r.ok and r.err != "value":
